@@ -128,7 +128,8 @@ EVENTS = [
     ("deco", ["R"], {}), ("deco", ["A"], {"n": 4}), ("deco", ["BAD"], {}), ("deco", ["NOSUCH"], {}),
     # ... and when the decorated function itself raises
     ("deco-raise", ["R"], {}), ("deco-raise", ["A"], {"n": 4}), ("deco-raise", ["RB"], {}),
-    ("disable", 1), ("disable", None),
+    ("disable", 1), ("disable", None), ("disable", 0),  # removing ZERO contexts removes none
+    ("with", [], {}),  # a block that names no context
     ("with", ["R"], {}), ("with", ["A"], {"n": 3}), ("with", ["RB", "B"], {}),
     ("exit",), ("raise",), ("raise", "KeyboardInterrupt"), ("raise", "GeneratorExit"),
     ("enable", ["BAD"], {}), ("enable", ["BAD2"], {}), ("enable", ["R", "BAD2"], {}), ("enable", ["NOSUCH"], {}),
